@@ -98,6 +98,15 @@ CLAIMS = {
         'The parts outside the theorem are tied by correspondence only: generated programs (tag, full callback sequence, ToString text) and hand-written recursive tags with prefix-related struct names, plus corrupted tags/bytes, run through mserialize::visit and the model.',
    note=NOTE_COMMON + 'as C04; the visit theorem is partial as stated; string-level name resolution of recursive struct references is modelled (resolve_recursive) and executed against the code but not covered by a theorem.',
    design='4/C06', technique='Coq proof on string-level tag tokenizer and visitor interpreter (fuelled, fuel = the code\'s recursion limit) + generated-program and hand-written-tag differential correspondence'),
+ 'C09': dict(
+   text='PARTIAL by theorem, the rest by observation tied to the model. Theorems (Coq, closed): C09_entries_tile_the_input (for EVERY byte string the payloads the reader interprets, with their size fields, tile a prefix of the input and the remainder is the '
+        'reported incomplete tail: no entry reaches outside the input), C09_time_assertions_never_fire (for every clock sync, clock value, time zone offset and date format no printTwoDigits / printTimeZoneOffset assertion can fire; instantiated with the %y and '
+        'offset arithmetic read off the sources), C09_singular_sequence_collapsed (more than 32 zero-size elements are visited once whatever count the input claims), instances for nesting beyond 2048 and self-referential structs. '
+        'C09_no_amplification_refuted proves on the faithful model that the output bound does NOT hold in general (recorded finding D6, reported as KNOWN-FINDING for its two inputs; any other amplification is a violation). '
+        'Memory safety, stack depth, termination time and output size of the real code are outside what a Coq model can exhibit: they are observed under ASan+UBSan with assertions on, on hostile inputs aimed at the guards, while the model must predict status and text of every one of them '
+        '(message rendering incl. %.16g floats, time formatting, error isolation), and a sample runs through the real bread binary (exit status 0/3).',
+   note=NOTE_COMMON + 'sanitizers as observers; operator new limited to 256 MiB in the line driver (bread stage unlimited); invalid-bool loads and multi-GB allocations for hostile size fields are recorded observations, not counted as violations (DESIGN.md).',
+   design='4/C09', technique='Coq proofs on the reader/visitor model for the parts that are logic (bounds of entries, assertion-freedom of time formatting, collapse rule) + refutation witness; model-vs-code differential execution on hostile inputs under sanitizers'),
 }
 REASON_NOT_BUILT = 'not built yet in this round: no theorem/correspondence for it is registered; not claimed at a lower level by another technique'
 m = {'version': 1, 'setup_cmd': './setup.sh',
